@@ -792,14 +792,34 @@ NEG = {"Lt": "Ge", "Le": "Gt", "Gt": "Le", "Ge": "Lt", "Eq": "Ne", "Ne": "Eq"}
 SWAP = {"Lt": "Gt", "Le": "Ge", "Gt": "Lt", "Ge": "Le", "Eq": "Eq", "Ne": "Ne"}
 
 
-def _mutable_parts(t):
+_CMP_METHODS = {"lt": "Lt", "le": "Le", "gt": "Gt", "ge": "Ge", "eq": "Eq", "ne": "Ne"}
+
+
+def _unref(t):
+    t = deep_strip(t)
+    while t[0] in ('ref', 'deref'):
+        t = deep_strip(t[1])
+    return t
+
+
+def _mutable_parts(t, body=None):
     """components of a term whose value may change between two program points: multiply-assigned
-    locals and memory reached through deref/field of something that is not a plain parameter value"""
+    locals and memory reached through a deref — except memory behind a shared-reference parameter
+    (`&T`): nothing in the analysed body can write it (interior mutability is not compared by facts)"""
     out = set()
     for s in subterms(t):
         if isinstance(s, tuple) and s and s[0] == 'var':
             out.add(s)
         if isinstance(s, tuple) and s and s[0] == 'deref':
+            if body is not None:
+                roots = [x for x in subterms(s[1]) if isinstance(x, tuple) and x and x[0] in ('param', 'var', 'unknown')]
+                def _frozen(x):
+                    if x[0] != 'param':
+                        return False
+                    ty = body.local_ty(x[1])
+                    return not (ty.k in ('ref', 'ptr') and ty.j.get("mut")) and ty.k != 'ptr'
+                if roots and all(_frozen(x) for x in roots):
+                    continue
             out.add(s)
     return out
 
@@ -823,6 +843,11 @@ def _body_facts(self):
                 if cc[0] == 'bin' and cc[1] in NEG:
                     op = cc[1] if tr else NEG[cc[1]]
                     rel = ('cmp', op, deep_strip(cc[2]), deep_strip(cc[3]))
+                elif cc[0] == 'call' and canon(cc[1]).split("::")[-2:-1] in (["PartialOrd"], ["PartialEq"]) and \
+                        canon(cc[1]).split("::")[-1] in _CMP_METHODS and len(cc[2]) == 2:
+                    op = _CMP_METHODS[canon(cc[1]).split("::")[-1]]
+                    op = op if tr else NEG[op]
+                    rel = ('cmp', op, _unref(cc[2][0]), _unref(cc[2][1]))
                 else:
                     rel = ('bool', cc, tr)
             else:
@@ -905,7 +930,7 @@ def _facts_at(self, pos):
         parts = set()
         for x in rel[1:]:
             if isinstance(x, tuple):
-                parts |= _mutable_parts(x)
+                parts |= _mutable_parts(x, self)
         if _writes_between(self, v, pos, parts, (u, v)):
             continue
         out.append(rel)
